@@ -4,7 +4,7 @@ from fractions import Fraction
 from world import amounts, specials, amount_value, enc_frac, enc_dec
 
 ID = "C18"
-LEAN_MODULES = ["QtyModel.Props.C18", "QtyModel.Props.Backends"]
+LEAN_MODULES = ["QtyModel.Props.C18", "QtyModel.Props.Backends", "QtyModel.Props.C18Generated"]
 HARNESS_GROUPS = ('g_derived', 'g_rate')
 RATE_TYPES = ["Length", "Duration", "Mass", "DataVolume", "AmountT", "S:Sa"]
 RULE = ("operations of C01-C05, C08, C13-C15 on every quantity type with a reference unit x special and boundary amounts "
@@ -37,6 +37,8 @@ def in_domain(w, line):
             si, sj = t["units"][i]["scale_val"], t["units"][j]["scale_val"]
             m = a * si
             return all(ok_mag(x) for x in (a, m, m / smin(t), m / sj)) and ok_mag(si / sj, False)
+        if op in ("fmt", "fmtu") or (op == "rate" and ws[7] == "fmt"):
+            return True      # formatting has no magnitude precondition: it must never panic
         if op in ("add", "sub", "div", "cmp"):
             t = w.by_name[ws[1]]
             i, j = int(ws[2]), int(ws[4])
@@ -148,6 +150,18 @@ def gen(w, rng, tier):
         for la, a in specials(w.be):
             add(f"fit:{la}", f"fit {t['name']} {a}")
             add(f"fmt:{la}", f"fmt {t['name']} {rng.below(n)} {a} nr10 12 3")
+        # formatting of quantities and of their units never panics: every unit x special amounts x
+        # specifications with and without width / precision (precision 0, 18, 19, 20 for the digit buffers;
+        # a precision shorter than the symbol for the unit alone, which cuts inside a multi-byte symbol)
+        sp = specials(w.be) + amounts(w.be, rng, 1)
+        for i in range(n):
+            nsym = len(t["units"][i]["symbol"])
+            for spec in ("nn00 - -", "nn10 - 0", "zr01 25 18", "wc00 9 20", "ul10 3 19"):
+                la, a = rng.choice(sp)
+                add(f"fmt:{la}", f"fmt {t['name']} {i} {a} {spec}")
+            for prec in sorted({0, 1, max(0, nsym - 1), nsym, nsym + 1}):
+                add("fmtu", f"fmtu {t['name']} {i} wr00 {rng.below(12)} {prec}")
+            add("fmtu", f"fmtu {t['name']} {i} nn00 - -")
     for (op, l, r, o) in w.derived():
         tl, tr = w.by_name[l], w.by_name[r]
         pairs = [(i, j) for i in range(tl["n"]) for j in range(tr["n"])]
@@ -255,6 +269,7 @@ def gen(w, rng, tier):
                 head = f"rate {tq} {pq} {ta} {tu} {pm} {pu}"
                 add("rate:mulq", f"{head} mulq {qi_p} {qa}")
                 add("rate:divq", f"{head} divq {qi_t} {qa2}")
+                add("rate:fmt", f"{head} fmt")
     return ops
 
 
